@@ -79,6 +79,10 @@ def jobs(tier):
     J.append(conc_real("lfht_qsbr", {}, "1,0,0,0" if q else "2,0,0,0", hmap=0, enum=1, nenum=2, nops=1, **TWO))
     J.append(conc_real("lfht_qsbr", {}, "1,0,0,0" if q else "2,0,0,0", flags=1, hmap=4, init=1, ninit=3, init_keys=0x210, prog0=prog((K_ADD, 3)),
                        prog1=prog((K_DEL, 0), (K_LOOKUP, 1))))
+    # qsbr: a count-driven lazy shrink is queued for the worker while another thread shrinks explicitly (the worker must not hold off
+    # the grace period the mutex holder waits for)
+    J.append(conc_real("lfht_qsbr", {}, "1,0,0,0", flags=3, hmap=1, count_commit_order=0, init=8, ninit=3, init_keys=0x210, prog0=prog((K_DEL, 0)),
+                       prog1=prog((K_RESIZE, 2))))
     for b, env in REAL:
         deep = (not q) or b == "lfht_memb"
         J.append(conc_real(b, env, "2,0,0,0" if deep else "1,0,0,0", hmap=0, enum=1, nenum=2, nops=1, **TWO))
